@@ -228,12 +228,19 @@ def run_single(sc):
         elif ch == "option":
             kw["default_config"] = True
             kw["config_option"] = ["%s.%s=%s" % (f["section"], f["key"], v)]
+        elif ch == "update":
+            kw["default_config"] = True              # the value is supplied at run time through Config.update (documented: checked)
         else:
             kw["default_config"] = True
             kw["config"] = {f["key"]: v}
         raised = None
         try:
             ss = andes.System(**kw)
+            if ch == "update":
+                objs0 = {"System": ss.config}
+                objs0.update({n: r.config for n, r in ss.routines.items()})
+                objs0.update({n: m.config for n, m in ss.models.items()})
+                objs0[f["section"]].update(**{f["key"]: coerce(str(v))})
         except Exception as ex:
             raised = "%s: %s" % (type(ex).__name__, str(ex)[:160])
         if sc["kind"] == "out_of_alternatives":
@@ -246,6 +253,8 @@ def run_single(sc):
                 objs.update({n: m.config for n, m in ss.models.items()})
                 eff = getattr(objs[f["section"]], f["key"])
                 sup = T(coerce(str(v))) if ch != "dict" else T(v)
+                if ch == "update":
+                    ch = "option"             # judged like a value supplied on top of the defaults
                 ev.append(dict(e="field", section=f["section"], key=f["key"], is_system=(f["section"] == "System"),
                                channels=ch, vfile=sup if ch == "file" else "none", vopt=sup if ch == "option" else "none",
                                vdict=sup if ch == "dict" else "none", vdef=T(f["default"]), veff=T(eff), vused="none"))
